@@ -1,7 +1,7 @@
 /-
   Helper lemmas for C02 / C11 (framing buffer).
 -/
-import Indi.Spec.Buf
+import Indi.Spec.Buf2
 
 namespace Indi.Buf
 
@@ -285,67 +285,102 @@ theorem cleanup_lt_noLt (tags : List Str) (p' : Str) (h : '<' ∉ p') :
 
 /-! ### scan / findMessage -/
 
-theorem scan_some_parses (tryParse : Str → Option M) :
-    ∀ (rest preRev : Str) (m : M) (r : Str), scan tryParse preRev rest = some (m, r) →
-      ∃ x, tryParse x = some m := by
+/-- a hit of the scan is a candidate (prefix of the data ending at the scan position) that parses -/
+theorem scan_found_candidate (parse : Str → ParseRes M) :
+    ∀ (rest preRev : Str) (m : M) (r : Str), scan parse preRev rest = .found m r →
+      ∃ k, parse (preRev.reverse ++ rest.take k) = .msg m := by
   intro rest
   induction rest with
   | nil => intro preRev m r h; simp [scan] at h
   | cons c cs ih =>
     intro preRev m r h
+    have hstep : scan parse (c :: preRev) cs = .found m r →
+        ∃ k, parse (preRev.reverse ++ (c :: cs).take k) = .msg m := by
+      intro h'
+      obtain ⟨k, hk⟩ := ih _ _ _ h'
+      exact ⟨k + 1, by simpa using hk⟩
     simp only [scan] at h
     split at h
     · split at h
       · rename_i m' hm'
         cases h
-        exact ⟨_, hm'⟩
+        exact ⟨1, by simpa using hm'⟩
+      · cases h
       · split at h
         · cases h
-        · exact ih _ _ _ h
-    · exact ih _ _ _ h
+        · exact hstep h
+    · exact hstep h
 
-theorem scan_suffix (tryParse : Str → Option M) :
-    ∀ (rest preRev : Str) (m : M) (r : Str), scan tryParse preRev rest = some (m, r) →
-      r <:+ rest := by
+theorem scan_found_parses (parse : Str → ParseRes M)
+    (rest preRev : Str) (m : M) (r : Str) (h : scan parse preRev rest = .found m r) :
+    ∃ x, parse x = .msg m := by
+  obtain ⟨k, hk⟩ := scan_found_candidate parse rest preRev m r h
+  exact ⟨_, hk⟩
+
+theorem scan_suffix (parse : Str → ParseRes M) :
+    ∀ (rest preRev : Str),
+      (∀ (m : M) (r : Str), scan parse preRev rest = .found m r → r <:+ rest) ∧
+      (∀ (r : Str), scan parse preRev rest = .skip r → r <:+ rest) := by
   intro rest
   induction rest with
-  | nil => intro preRev m r h; simp [scan] at h
+  | nil => intro preRev; constructor <;> intros <;> simp [scan] at *
   | cons c cs ih =>
-    intro preRev m r h
-    simp only [scan] at h
-    split at h
-    · split at h
-      · cases h
-        exact List.suffix_cons _ _
-      · split at h
-        · cases h
-        · exact (ih _ _ _ h).trans (List.suffix_cons _ _)
-    · exact (ih _ _ _ h).trans (List.suffix_cons _ _)
+    intro preRev
+    have hstep := ih (c :: preRev)
+    simp only [scan]
+    split
+    · split
+      · constructor
+        · intro m r h; cases h; exact List.suffix_cons _ _
+        · intro r h; cases h
+      · constructor
+        · intro m r h; cases h
+        · intro r h; cases h; exact List.suffix_cons _ _
+      · split
+        · constructor
+          · intro m r h; cases h
+          · intro r h; cases h
+        · exact ⟨fun m r h => (hstep.1 m r h).trans (List.suffix_cons _ _),
+            fun r h => (hstep.2 r h).trans (List.suffix_cons _ _)⟩
+    · exact ⟨fun m r h => (hstep.1 m r h).trans (List.suffix_cons _ _),
+        fun r h => (hstep.2 r h).trans (List.suffix_cons _ _)⟩
 
-theorem findMessage_some_parses (tryParse : Str → Option M) (data : Str) (m : M) (r : Str)
-    (h : findMessage tryParse data = some (m, r)) : ∃ x, tryParse x = some m := by
+theorem findMessage_found_candidate (parse : Str → ParseRes M) (data : Str) (m : M) (r : Str)
+    (h : findMessage parse data = .found m r) : ∃ k, parse (data.take k) = .msg m := by
   unfold findMessage at h
   split at h
   · cases h
-  · exact scan_some_parses tryParse _ _ _ _ h
+  · simpa using scan_found_candidate parse _ _ _ _ h
 
-theorem findMessage_suffix (tryParse : Str → Option M) (data : Str) (m : M) (r : Str)
-    (h : findMessage tryParse data = some (m, r)) : r <:+ data := by
+theorem findMessage_found_parses (parse : Str → ParseRes M) (data : Str) (m : M) (r : Str)
+    (h : findMessage parse data = .found m r) : ∃ x, parse x = .msg m := by
+  obtain ⟨k, hk⟩ := findMessage_found_candidate parse data m r h
+  exact ⟨_, hk⟩
+
+theorem findMessage_suffix (parse : Str → ParseRes M) (data : Str) (m : M) (r : Str)
+    (h : findMessage parse data = .found m r) : r <:+ data := by
   unfold findMessage at h
   split at h
   · cases h
-  · exact scan_suffix tryParse _ _ _ _ h
+  · exact (scan_suffix parse _ _).1 _ _ h
 
-/-- if no candidate parses, the scan finds nothing -/
-theorem scan_none (tryParse : Str → Option M) :
-    ∀ (rest preRev : Str), (∀ k, tryParse (preRev.reverse ++ rest.take k) = none) →
-      scan tryParse preRev rest = none := by
+theorem findMessage_skip_suffix (parse : Str → ParseRes M) (data : Str) (r : Str)
+    (h : findMessage parse data = .skip r) : r <:+ data := by
+  unfold findMessage at h
+  split at h
+  · cases h
+  · exact (scan_suffix parse _ _).2 _ h
+
+/-- if no candidate is XML, the scan finds nothing -/
+theorem scan_nothing (parse : Str → ParseRes M) :
+    ∀ (rest preRev : Str), (∀ k, parse (preRev.reverse ++ rest.take k) = .notXml) →
+      scan parse preRev rest = .nothing := by
   intro rest
   induction rest with
   | nil => intro preRev _; simp [scan]
   | cons c cs ih =>
     intro preRev h
-    have hstep : scan tryParse (c :: preRev) cs = none := by
+    have hstep : scan parse (c :: preRev) cs = .nothing := by
       apply ih
       intro k
       have := h (k + 1)
@@ -354,7 +389,7 @@ theorem scan_none (tryParse : Str → Option M) :
     split
     · have h1 := h 1
       simp only [List.take_succ_cons, List.take_zero] at h1
-      have h1' : tryParse (c :: preRev).reverse = none := by simpa using h1
+      have h1' : parse (c :: preRev).reverse = .notXml := by simpa using h1
       rw [h1']
       simp only
       split
@@ -362,40 +397,36 @@ theorem scan_none (tryParse : Str → Option M) :
       · exact hstep
     · exact hstep
 
-theorem findMessage_none_of_prefixes (tryParse : Str → Option M) (data : Str)
-    (h : ∀ k, tryParse (data.take k) = none) : findMessage tryParse data = none := by
+theorem findMessage_nothing_of_prefixes (parse : Str → ParseRes M) (data : Str)
+    (h : ∀ k, parse (data.take k) = .notXml) : findMessage parse data = .nothing := by
   unfold findMessage
   split
   · rfl
-  · apply scan_none
+  · apply scan_nothing
     simpa using h
 
-/-- L5 -/
-theorem findMessage_noOpener (tryParse : Str → Option M) (tags : List Str)
-    (hA1 : ParserNeedsOpener tryParse tags) (data : Str) (hd : NoOpener tags data) :
-    findMessage tryParse data = none := by
-  apply findMessage_none_of_prefixes
-  intro k
-  cases h : tryParse (data.take k) with
-  | none => rfl
-  | some m =>
-    exfalso
-    have h1 := hA1 _ _ h
-    have h2 := HasOpener_append tags _ (data.drop k) h1
-    rw [List.take_append_drop] at h2
-    exact NoOpener_not_HasOpener tags data hd h2
+/-- L5: on opener-free data nothing is ever found (a complete non-message element may be skipped) -/
+theorem findMessage_noOpener (parse : Str → ParseRes M) (tags : List Str)
+    (hA1 : ParserNeedsOpener parse tags) (data : Str) (hd : NoOpener tags data) (m : M) (r : Str) :
+    findMessage parse data ≠ .found m r := by
+  intro h
+  obtain ⟨k, hk⟩ := findMessage_found_candidate parse data m r h
+  have h1 := hA1 _ _ hk
+  have h2 := HasOpener_append tags _ (data.drop k) h1
+  rw [List.take_append_drop] at h2
+  exact NoOpener_not_HasOpener tags data hd h2
 
 /-! ### processLoop: one-step unfoldings -/
 
-theorem processLoop_nil (tryParse : Str → Option M) (tags : List Str) (T : Option Nat) :
-    processLoop tryParse tags T [] = ([], []) := by
+theorem processLoop_nil (parse : Str → ParseRes M) (tags : List Str) (T : Option Nat) :
+    processLoop parse tags T [] = ([], []) := by
   rw [processLoop.eq_def]; simp
 
-theorem processLoop_found (tryParse : Str → Option M) (tags : List Str) (T : Option Nat)
-    (data : Str) (m : M) (rest : Str) (hf : findMessage tryParse data = some (m, rest)) :
-    processLoop tryParse tags T data =
-      (m :: (processLoop tryParse tags T (cleanup tags rest)).1,
-        (processLoop tryParse tags T (cleanup tags rest)).2) := by
+theorem processLoop_found (parse : Str → ParseRes M) (tags : List Str) (T : Option Nat)
+    (data : Str) (m : M) (rest : Str) (hf : findMessage parse data = .found m rest) :
+    processLoop parse tags T data =
+      (m :: (processLoop parse tags T (cleanup tags rest)).1,
+        (processLoop parse tags T (cleanup tags rest)).2) := by
   have hne : data ≠ [] := by
     intro h; subst h; simp [findMessage] at hf
   rw [processLoop.eq_def]
@@ -408,15 +439,40 @@ theorem processLoop_found (tryParse : Str → Option M) (tags : List Str) (T : O
   · rename_i h'
     rw [hf] at h'
     cases h'
+  · rename_i h'
+    rw [hf] at h'
+    cases h'
 
-theorem processLoop_keep (tryParse : Str → Option M) (tags : List Str) (T : Option Nat)
-    (data : Str) (hf : findMessage tryParse data = none) (hfit : fits T data) :
-    processLoop tryParse tags T data = ([], data) := by
+theorem processLoop_skip (parse : Str → ParseRes M) (tags : List Str) (T : Option Nat)
+    (data : Str) (rest : Str) (hf : findMessage parse data = .skip rest) :
+    processLoop parse tags T data = processLoop parse tags T (cleanup tags rest) := by
+  have hne : data ≠ [] := by
+    intro h; subst h; simp [findMessage] at hf
+  rw [processLoop.eq_def]
+  simp only [hne, dite_false]
+  split
+  · rename_i h'
+    rw [hf] at h'
+    cases h'
+  · rename_i rest' h'
+    rw [hf] at h'
+    cases h'
+    rfl
+  · rename_i h'
+    rw [hf] at h'
+    cases h'
+
+theorem processLoop_keep (parse : Str → ParseRes M) (tags : List Str) (T : Option Nat)
+    (data : Str) (hf : findMessage parse data = .nothing) (hfit : fits T data) :
+    processLoop parse tags T data = ([], data) := by
   rw [processLoop.eq_def]
   split
   · rename_i h; subst h; rfl
   · split
     · rename_i m' rest' h'
+      rw [hf] at h'
+      cases h'
+    · rename_i rest' h'
       rw [hf] at h'
       cases h'
     · cases T with
@@ -426,10 +482,10 @@ theorem processLoop_keep (tryParse : Str → Option M) (tags : List Str) (T : Op
         simp only
         rw [if_neg (by omega)]
 
-theorem processLoop_drop (tryParse : Str → Option M) (tags : List Str) (t : Nat)
-    (data : Str) (hf : findMessage tryParse data = none) (hgt : data.length > t) :
-    processLoop tryParse tags (some t) data =
-      processLoop tryParse tags (some t) (cleanup tags data.tail) := by
+theorem processLoop_drop (parse : Str → ParseRes M) (tags : List Str) (t : Nat)
+    (data : Str) (hf : findMessage parse data = .nothing) (hgt : data.length > t) :
+    processLoop parse tags (some t) data =
+      processLoop parse tags (some t) (cleanup tags data.tail) := by
   have hne : data ≠ [] := by
     intro h; subst h; simp at hgt
   rw [processLoop.eq_def]
@@ -438,86 +494,100 @@ theorem processLoop_drop (tryParse : Str → Option M) (tags : List Str) (t : Na
   · rename_i m' rest' h'
     rw [hf] at h'
     cases h'
+  · rename_i rest' h'
+    rw [hf] at h'
+    cases h'
   · rw [if_pos hgt]
 
 /-! ### C11 on `processLoop` -/
 
-theorem processLoop_bounded (tryParse : Str → Option M) (tags : List Str)
+theorem processLoop_bounded (parse : Str → ParseRes M) (tags : List Str)
     (t : Nat) (data : Str) :
-    (processLoop tryParse tags (some t) data).2.length ≤ t := by
-  induction data using processLoop.induct tryParse tags (some t) with
+    (processLoop parse tags (some t) data).2.length ≤ t := by
+  induction data using processLoop.induct parse tags (some t) with
   | case1 => simp [processLoop_nil]
   | case2 data hd m rest hf ih => rw [processLoop_found _ _ _ _ _ _ hf]; exact ih
-  | case3 data hd hf t' ht hgt ih =>
+  | case3 data hd rest hf ih => rw [processLoop_skip _ _ _ _ _ hf]; exact ih
+  | case4 data hd hf t' ht hgt ih =>
     cases ht
     rw [processLoop_drop _ _ _ _ hf hgt]; exact ih
-  | case4 data hd hf t' ht hle =>
+  | case5 data hd hf t' ht hle =>
     cases ht
     rw [processLoop_keep _ _ _ _ hf (by simp only [fits]; omega)]
     show data.length ≤ t
     omega
-  | case5 data hd hf ht => cases ht
+  | case6 data hd hf ht => cases ht
 
-theorem processLoop_genuine (tryParse : Str → Option M) (tags : List Str) (T : Option Nat)
-    (data : Str) (m : M) (h : m ∈ (processLoop tryParse tags T data).1) :
-    ∃ x, tryParse x = some m := by
-  induction data using processLoop.induct tryParse tags T with
+theorem processLoop_genuine (parse : Str → ParseRes M) (tags : List Str) (T : Option Nat)
+    (data : Str) (m : M) (h : m ∈ (processLoop parse tags T data).1) :
+    ∃ x, parse x = .msg m := by
+  induction data using processLoop.induct parse tags T with
   | case1 => simp [processLoop_nil] at h
   | case2 data hd m' rest hf ih =>
     rw [processLoop_found _ _ _ _ _ _ hf] at h
     simp only [List.mem_cons] at h
     rcases h with h | h
-    · subst h; exact findMessage_some_parses tryParse _ _ _ hf
+    · subst h; exact findMessage_found_parses parse _ _ _ hf
     · exact ih h
-  | case3 data hd hf t' ht hgt ih =>
+  | case3 data hd rest hf ih =>
+    rw [processLoop_skip _ _ _ _ _ hf] at h; exact ih h
+  | case4 data hd hf t' ht hgt ih =>
     subst ht
     rw [processLoop_drop _ _ _ _ hf hgt] at h; exact ih h
-  | case4 data hd hf t' ht hle =>
+  | case5 data hd hf t' ht hle =>
     subst ht
     rw [processLoop_keep _ _ _ _ hf (by simp only [fits]; omega)] at h
     simp at h
-  | case5 data hd hf ht =>
+  | case6 data hd hf ht =>
     subst ht
     rw [processLoop_keep _ _ _ _ hf (by simp only [fits])] at h
     simp at h
 
-theorem processLoop_suffix (tryParse : Str → Option M) (tags : List Str) (T : Option Nat)
-    (data : Str) : (processLoop tryParse tags T data).2 <:+ data := by
-  induction data using processLoop.induct tryParse tags T with
+theorem processLoop_suffix (parse : Str → ParseRes M) (tags : List Str) (T : Option Nat)
+    (data : Str) : (processLoop parse tags T data).2 <:+ data := by
+  induction data using processLoop.induct parse tags T with
   | case1 => simp [processLoop_nil]
   | case2 data hd m' rest hf ih =>
     rw [processLoop_found _ _ _ _ _ _ hf]
-    exact ih.trans ((cleanup_suffix tags rest).trans (findMessage_suffix tryParse _ _ _ hf))
-  | case3 data hd hf t' ht hgt ih =>
+    exact ih.trans ((cleanup_suffix tags rest).trans (findMessage_suffix parse _ _ _ hf))
+  | case3 data hd rest hf ih =>
+    rw [processLoop_skip _ _ _ _ _ hf]
+    exact ih.trans ((cleanup_suffix tags rest).trans (findMessage_skip_suffix parse _ _ hf))
+  | case4 data hd hf t' ht hgt ih =>
     subst ht
     rw [processLoop_drop _ _ _ _ hf hgt]
     exact ih.trans ((cleanup_suffix tags _).trans (List.tail_suffix data))
-  | case4 data hd hf t' ht hle =>
+  | case5 data hd hf t' ht hle =>
     subst ht
     rw [processLoop_keep _ _ _ _ hf (by simp only [fits]; omega)]
     exact List.suffix_refl _
-  | case5 data hd hf ht =>
+  | case6 data hd hf ht =>
     subst ht
     rw [processLoop_keep _ _ _ _ hf (by simp only [fits])]
     exact List.suffix_refl _
 
-theorem processLoop_noOpener (tryParse : Str → Option M) (tags : List Str) (T : Option Nat)
-    (hA1 : ParserNeedsOpener tryParse tags) (data : Str) (hd : NoOpener tags data) :
-    (processLoop tryParse tags T data).1 = [] := by
-  induction data using processLoop.induct tryParse tags T with
+theorem processLoop_noOpener (parse : Str → ParseRes M) (tags : List Str) (T : Option Nat)
+    (hA1 : ParserNeedsOpener parse tags) (data : Str) (hd : NoOpener tags data) :
+    (processLoop parse tags T data).1 = [] := by
+  induction data using processLoop.induct parse tags T with
   | case1 => simp [processLoop_nil]
   | case2 data hne m' rest hf ih =>
-    rw [findMessage_noOpener tryParse tags hA1 data hd] at hf
-    cases hf
-  | case3 data hne hf t' ht hgt ih =>
+    exact absurd hf (findMessage_noOpener parse tags hA1 data hd m' rest)
+  | case3 data hne rest hf ih =>
+    -- a complete element that is not a message is dropped; what follows is still opener-free
+    rw [processLoop_skip _ _ _ _ _ hf]
+    apply ih
+    exact NoOpener_suffix tags data _
+      ((cleanup_suffix tags _).trans (findMessage_skip_suffix parse _ _ hf)) hd
+  | case4 data hne hf t' ht hgt ih =>
     subst ht
     rw [processLoop_drop _ _ _ _ hf hgt]
     apply ih
     exact NoOpener_suffix tags data _ ((cleanup_suffix tags _).trans (List.tail_suffix data)) hd
-  | case4 data hne hf t' ht hle =>
+  | case5 data hne hf t' ht hle =>
     subst ht
     rw [processLoop_keep _ _ _ _ hf (by simp only [fits]; omega)]
-  | case5 data hne hf ht =>
+  | case6 data hne hf ht =>
     subst ht
     rw [processLoop_keep _ _ _ _ hf (by simp only [fits])]
 
@@ -530,12 +600,12 @@ theorem fits_mono (T : Option Nat) (a b : Str) (h : fits T a) (hl : b.length ≤
   | some t => simp only [fits] at *; omega
 
 /-- L3, generalised over the scan position -/
-theorem scan_complete (tryParse : Str → Option M) (body : Str) (m : M) (rest : Str)
-    (hparse : tryParse body = some m)
-    (hmin : ∀ k, k < body.length → tryParse (body.take k) = none)
+theorem scan_complete (parse : Str → ParseRes M) (body : Str) (m : M) (rest : Str)
+    (hparse : parse body = .msg m)
+    (hmin : ∀ k, k < body.length → parse (body.take k) = .notXml)
     (pre : Str) (c0 : Char) (hend : body = pre ++ [c0, '>']) (hc0 : c0 ≠ '>') :
     ∀ (b a : Str), body = a ++ b → b ≠ [] →
-      scan tryParse a.reverse (b ++ rest) = some (m, rest) := by
+      scan parse a.reverse (b ++ rest) = .found m rest := by
   intro b
   induction b with
   | nil => intro a _ h; exact absurd rfl h
@@ -543,7 +613,7 @@ theorem scan_complete (tryParse : Str → Option M) (body : Str) (m : M) (rest :
     intro a hab _
     have hrev : (a ++ c :: cs).reverse = (pre ++ [c0, '>']).reverse := by
       rw [← hab, hend]
-    have hstep : cs ≠ [] → scan tryParse (c :: a.reverse) (cs ++ rest) = some (m, rest) := by
+    have hstep : cs ≠ [] → scan parse (c :: a.reverse) (cs ++ rest) = .found m rest := by
       intro hcs
       have := ih (a ++ [c]) (by simp [hab]) hcs
       simpa using this
@@ -578,24 +648,24 @@ theorem scan_complete (tryParse : Str → Option M) (body : Str) (m : M) (rest :
       simp at hrev
       exact hc hrev.1
 
-theorem findMessage_complete (tryParse : Str → Option M) (tags : List Str) (body : Str) (m : M)
-    (hadm : Admissible tryParse tags body m) (rest : Str) :
-    findMessage tryParse (body ++ rest) = some (m, rest) := by
+theorem findMessage_complete (parse : Str → ParseRes M) (tags : List Str) (body : Str) (m : M)
+    (hadm : Admissible parse tags body m) (rest : Str) :
+    findMessage parse (body ++ rest) = .found m rest := by
   obtain ⟨pre, c0, hend, hc0⟩ := hadm.ending
   have hlen : ¬ ((body ++ rest).length < 2) := by
     rw [hend]; simp; omega
   unfold findMessage
   rw [if_neg hlen]
   have hb : body ≠ [] := by rw [hend]; simp
-  exact scan_complete tryParse body m rest hadm.parses hadm.minimal pre c0 hend hc0 body []
+  exact scan_complete parse body m rest hadm.parses hadm.minimal pre c0 hend hc0 body []
     (by simp) hb
 
 /-- L4 -/
-theorem findMessage_properPrefix (tryParse : Str → Option M) (body p : Str)
-    (hmin : ∀ k, k < body.length → tryParse (body.take k) = none)
+theorem findMessage_properPrefix (parse : Str → ParseRes M) (body p : Str)
+    (hmin : ∀ k, k < body.length → parse (body.take k) = .notXml)
     (hp : p <+: body) (hlt : p.length < body.length) :
-    findMessage tryParse p = none := by
-  apply findMessage_none_of_prefixes
+    findMessage parse p = .nothing := by
+  apply findMessage_nothing_of_prefixes
   intro k
   have h1 : p.take k <+: body := (List.take_prefix k p).trans hp
   rw [List.prefix_iff_eq_take.1 h1]
@@ -603,51 +673,7 @@ theorem findMessage_properPrefix (tryParse : Str → Option M) (body p : Str)
   have := List.length_take_le' k p
   omega
 
-/-- retained data that is a proper prefix of `gap ++ body` stays as it is -/
-theorem processLoop_partial (tryParse : Str → Option M) (tags : List Str) (T : Option Nat)
-    (hA1 : ParserNeedsOpener tryParse tags) (hA2 : TagsOk tags)
-    (gap body : Str) (m : M) (hadm : Admissible tryParse tags body m)
-    (hgap : NoOpener tags gap) (hfit : fits T (gap ++ body))
-    (x : Str) (hx : x <+: gap ++ body) (hlen : x.length < gap.length + body.length) :
-    processLoop tryParse tags T (cleanup tags x) = ([], cleanup tags x) := by
-  apply processLoop_keep
-  · rcases List.prefix_or_prefix_of_prefix hx (List.prefix_append gap body) with h | h
-    · apply findMessage_noOpener tryParse tags hA1
-      exact NoOpener_suffix tags x _ (cleanup_suffix tags x) (NoOpener_of_prefix tags x gap h hgap)
-    · obtain ⟨p, hp⟩ := h
-      subst hp
-      have hpb : p <+: body := (List.prefix_append_right_inj gap).1 hx
-      have hplt : p.length < body.length := by simp at hlen; omega
-      cases p with
-      | nil =>
-        apply findMessage_noOpener tryParse tags hA1
-        exact NoOpener_suffix tags _ _ (cleanup_suffix tags _) (by simpa using hgap)
-      | cons c p' =>
-        obtain ⟨t, htm, ht⟩ := (startsKnown_iff tags body).1 hadm.starts
-        have hc : c = '<' := by
-          obtain ⟨u, hu⟩ := hpb
-          obtain ⟨v, hv⟩ := ht
-          rw [← hu] at hv
-          simp at hv
-          exact hv.1.symm
-        subst hc
-        have hstable : cleanup tags ('<' :: p') = '<' :: p' := by
-          by_cases hs : startsKnown tags ('<' :: p') = true
-          · exact cleanup_of_startsKnown tags _ hs
-          · apply cleanup_lt_noLt
-            rcases List.prefix_or_prefix_of_prefix ht hpb with h3 | h3
-            · exact absurd ((startsKnown_iff tags _).2 ⟨t, htm, h3⟩) hs
-            · intro hmem
-              have h4 : p' <+: t := by simpa using h3
-              exact hA2 t htm (h4.subset hmem)
-        rw [cleanup_gap tags hA2 gap p' hgap hstable]
-        exact findMessage_properPrefix tryParse body _ hadm.minimal hpb hplt
-  · apply fits_mono T _ _ hfit
-    have := cleanup_length_le tags x
-    simp
-    omega
-
-/-! ### C02: one call of `process` on a stream prefix -/
+/-! ### C02: position arithmetic on a stream -/
 
 /-- total length of the segments that are complete within the first `n` characters -/
 def off : List (Seg M) → Nat → Nat
@@ -656,82 +682,24 @@ def off : List (Seg M) → Nat → Nat
     let len := sg.gap.length + sg.body.length
     if len ≤ n then len + off rest (n - len) else 0
 
-theorem StreamOk_tail (tryParse : Str → Option M) (tags : List Str) (T : Option Nat)
+theorem StreamOk_tail (parse : Str → ParseRes M) (tags : List Str) (T : Option Nat)
     (sg : Seg M) (rest : List (Seg M)) (final : Str)
-    (hok : StreamOk tryParse tags T (sg :: rest) final) : StreamOk tryParse tags T rest final :=
+    (hok : StreamOk parse tags T (sg :: rest) final) : StreamOk parse tags T rest final :=
   ⟨fun s hs => hok.seg s (List.mem_cons_of_mem _ hs), hok.final⟩
 
-theorem StreamOk_drop (tryParse : Str → Option M) (tags : List Str) (T : Option Nat)
+theorem StreamOk_drop (parse : Str → ParseRes M) (tags : List Str) (T : Option Nat)
     (segs : List (Seg M)) (final : Str) (j : Nat)
-    (hok : StreamOk tryParse tags T segs final) : StreamOk tryParse tags T (segs.drop j) final :=
+    (hok : StreamOk parse tags T segs final) : StreamOk parse tags T (segs.drop j) final :=
   ⟨fun s hs => hok.seg s (List.mem_of_mem_drop hs), hok.final⟩
 
-/-- L6 -/
-theorem processLoop_stream (tryParse : Str → Option M) (tags : List Str) (T : Option Nat)
-    (hA1 : ParserNeedsOpener tryParse tags) (hA2 : TagsOk tags) (final : Str) :
-    ∀ (segs : List (Seg M)), StreamOk tryParse tags T segs final →
-      ∀ (x : Str), x <+: encode segs final →
-      processLoop tryParse tags T (cleanup tags x) =
-        ((segs.take (countDone segs x.length)).map (·.msg),
-          cleanup tags (x.drop (off segs x.length))) := by
-  intro segs
-  induction segs with
-  | nil =>
-    intro hok x hx
-    simp only [encode] at hx
-    simp only [countDone, off, List.take_nil, List.map_nil, List.drop_zero]
-    apply processLoop_keep
-    · apply findMessage_noOpener tryParse tags hA1
-      exact NoOpener_suffix tags x _ (cleanup_suffix tags x)
-        (NoOpener_of_prefix tags x final hx hok.final.1)
-    · apply fits_mono T _ _ hok.final.2
-      have := cleanup_length_le tags x
-      have := hx.length_le
-      omega
-  | cons sg rest ih =>
-    intro hok x hx
-    obtain ⟨hadm, hgap, hfit⟩ := hok.seg sg (by simp)
-    have hokr := StreamOk_tail tryParse tags T sg rest final hok
-    simp only [encode] at hx
-    have hgb : sg.gap ++ sg.body <+: sg.gap ++ sg.body ++ encode rest final :=
-      List.prefix_append _ _
-    by_cases h : sg.gap.length + sg.body.length ≤ x.length
-    · have h1 : sg.gap ++ sg.body <+: x :=
-        List.prefix_of_prefix_length_le hgb hx (by simpa using h)
-      obtain ⟨x', hx'⟩ := h1
-      subst hx'
-      have hx'p : x' <+: encode rest final := (List.prefix_append_right_inj _).1 hx
-      obtain ⟨t, htm, ht⟩ := (startsKnown_iff tags sg.body).1 hadm.starts
-      obtain ⟨b', hb'⟩ : ∃ b', sg.body = '<' :: b' := by
-        obtain ⟨v, hv⟩ := ht
-        exact ⟨t ++ v, by rw [← hv]; simp⟩
-      have hsk : startsKnown tags (sg.body ++ x') = true :=
-        startsKnown_append tags _ _ hadm.starts
-      have hcl : cleanup tags (sg.gap ++ sg.body ++ x') = sg.body ++ x' := by
-        have := cleanup_gap tags hA2 sg.gap (b' ++ x') hgap
-          (by
-            have h2 := cleanup_of_startsKnown tags _ hsk
-            rw [hb'] at h2
-            simpa using h2)
-        rw [hb']
-        simpa [List.append_assoc] using this
-      rw [hcl, processLoop_found tryParse tags T _ sg.msg x'
-        (findMessage_complete tryParse tags sg.body sg.msg hadm x'), ih hokr x' hx'p]
-      have hl : (sg.gap ++ sg.body ++ x').length - (sg.gap.length + sg.body.length) = x'.length := by
-        simp only [List.length_append]; omega
-      simp only [countDone, off, h, if_true, hl]
-      have h3 : 1 + countDone rest x'.length = countDone rest x'.length + 1 := by omega
-      rw [h3, List.take_succ_cons, List.map_cons]
-      congr 2
-      rw [← List.drop_drop]
-      congr 1
-      have : sg.gap.length + sg.body.length = (sg.gap ++ sg.body).length := by simp
-      rw [this, List.drop_left]
-    · have hlt : x.length < sg.gap.length + sg.body.length := by omega
-      have h1 : x <+: sg.gap ++ sg.body :=
-        List.prefix_of_prefix_length_le hx hgb (by simp; omega)
-      simp only [countDone, off, h, if_false, List.take_zero, List.map_nil, List.drop_zero]
-      exact processLoop_partial tryParse tags T hA1 hA2 sg.gap sg.body sg.msg hadm hgap hfit x h1 hlt
+/-- a stream whose gaps fit the threshold together with the bodies is in particular a stream
+whose bodies fit it -/
+theorem StreamOk.toStreamOk2 {parse : Str → ParseRes M} {tags : List Str} {T : Option Nat}
+    {segs : List (Seg M)} {final : Str} (hok : StreamOk parse tags T segs final) :
+    StreamOk2 parse tags T segs final :=
+  ⟨fun sg hs =>
+    let ⟨hadm, hgap, hfit⟩ := hok.seg sg hs
+    ⟨hadm, hgap, fits_mono T _ _ hfit (by simp)⟩, hok.final.1⟩
 
 /-! ### C02: arithmetic of `countDone` / `off` -/
 
@@ -802,8 +770,8 @@ theorem countDone_split (segs : List (Seg M)) :
       omega
     · simp [off, countDone, h]
 
-theorem countDone_zero (tryParse : Str → Option M) (tags : List Str) (T : Option Nat)
-    (segs : List (Seg M)) (final : Str) (hok : StreamOk tryParse tags T segs final) :
+theorem countDone_zero (parse : Str → ParseRes M) (tags : List Str) (T : Option Nat)
+    (segs : List (Seg M)) (final : Str) (hok : StreamOk parse tags T segs final) :
     countDone segs 0 = 0 := by
   cases segs with
   | nil => rfl
@@ -813,32 +781,283 @@ theorem countDone_zero (tryParse : Str → Option M) (tags : List Str) (T : Opti
     have : ¬ (sg.gap.length + sg.body.length ≤ 0) := by rw [hend]; simp
     simp [countDone, this]
 
-/-! ### C02: the session -/
 
-theorem session_stream (tryParse : Str → Option M) (tags : List Str) (T : Option Nat)
-    (hA1 : ParserNeedsOpener tryParse tags) (hA2 : TagsOk tags) (final : Str) :
-    ∀ (pieces : List Str) (segs : List (Seg M)), StreamOk tryParse tags T segs final →
-      ∀ (tail0 : Str), tail0 ++ pieces.flatten <+: encode segs final →
+/-! ### StreamOk2 basics -/
+
+theorem StreamOk2_tail (parse : Str → ParseRes M) (tags : List Str) (T : Option Nat)
+    (sg : Seg M) (rest : List (Seg M)) (final : Str)
+    (hok : StreamOk2 parse tags T (sg :: rest) final) : StreamOk2 parse tags T rest final :=
+  ⟨fun s hs => hok.seg s (List.mem_cons_of_mem _ hs), hok.final⟩
+
+theorem StreamOk2_drop (parse : Str → ParseRes M) (tags : List Str) (T : Option Nat)
+    (segs : List (Seg M)) (final : Str) (j : Nat)
+    (hok : StreamOk2 parse tags T segs final) : StreamOk2 parse tags T (segs.drop j) final :=
+  ⟨fun s hs => hok.seg s (List.mem_of_mem_drop hs), hok.final⟩
+
+theorem Admissible_length (parse : Str → ParseRes M) (tags : List Str) (body : Str) (m : M)
+    (hadm : Admissible parse tags body m) : 2 ≤ body.length := by
+  obtain ⟨pre, c0, hend, _⟩ := hadm.ending
+  rw [hend]; simp
+
+theorem countDone_zero2 (parse : Str → ParseRes M) (tags : List Str) (T : Option Nat)
+    (segs : List (Seg M)) (final : Str) (hok : StreamOk2 parse tags T segs final) :
+    countDone segs 0 = 0 := by
+  cases segs with
+  | nil => rfl
+  | cons sg rest =>
+    obtain ⟨hadm, _, _⟩ := hok.seg sg (by simp)
+    have := Admissible_length parse tags _ _ hadm
+    have : ¬ (sg.gap.length + sg.body.length ≤ 0) := by omega
+    simp [countDone, this]
+
+theorem countDone_all (final : Str) (segs : List (Seg M)) :
+    countDone segs (encode segs final).length = segs.length := by
+  induction segs with
+  | nil => simp [countDone]
+  | cons sg rest ih =>
+    have h : sg.gap.length + sg.body.length ≤ (encode (sg :: rest) final).length := by
+      simp only [encode, List.length_append]; omega
+    have e : (encode (sg :: rest) final).length - (sg.gap.length + sg.body.length)
+        = (encode rest final).length := by
+      simp only [encode, List.length_append]; omega
+    simp only [countDone, h, if_true, e, ih, List.length_cons]
+    omega
+
+/-! ### clean-up in front of a body -/
+
+/-- a non-empty prefix of `body ++ z` (body starting with a known opener) begins with `'<'`,
+and an opener-free gap in front of it is removed by the clean-up — and nothing more -/
+theorem cleanup_gap_body (tags : List Str) (hA2 : TagsOk tags) (g body z y : Str)
+    (hg : NoOpener tags g) (hb : startsKnown tags body = true)
+    (hy : y <+: body ++ z) (hne : y ≠ []) :
+    cleanup tags (g ++ y) = y := by
+  obtain ⟨t, htm, ht⟩ := (startsKnown_iff tags body).1 hb
+  have ht' : ('<' :: t) <+: body ++ z := ht.trans (List.prefix_append _ _)
+  cases y with
+  | nil => exact absurd rfl hne
+  | cons c y' =>
+    have hc : c = '<' := by
+      obtain ⟨u, hu⟩ := hy
+      obtain ⟨v, hv⟩ := ht'
+      rw [← hu] at hv
+      simp at hv
+      exact hv.1.symm
+    subst hc
+    have hstable : cleanup tags ('<' :: y') = '<' :: y' := by
+      by_cases hs : startsKnown tags ('<' :: y') = true
+      · exact cleanup_of_startsKnown tags _ hs
+      · apply cleanup_lt_noLt
+        rcases List.prefix_or_prefix_of_prefix ht' hy with h3 | h3
+        · exact absurd ((startsKnown_iff tags _).2 ⟨t, htm, h3⟩) hs
+        · intro hmem
+          have h4 : y' <+: t := by simpa using h3
+          exact hA2 t htm (h4.subset hmem)
+    exact cleanup_gap tags hA2 g y' hg hstable
+
+/-! ### the session invariant for streams with long gaps -/
+
+/-- the opener-free text in front of the next body (or the final junk) -/
+def headGap : List (Seg M) → Str → Str
+  | [], final => final
+  | sg :: _, _ => sg.gap
+
+/-- `B` is the retained buffer, `x` the part of the stream that has arrived after the last complete
+segment: either `B` is the clean-up of `x`, or `x` is still within the junk and `B` is any suffix -/
+def Inv2 (tags : List Str) (final : Str) (B x : Str) (segs : List (Seg M)) : Prop :=
+  B = cleanup tags x ∨ (B <:+ x ∧ x <+: headGap segs final)
+
+/-- opener-free data: nothing delivered, a suffix retained -/
+theorem processLoop_junk (parse : Str → ParseRes M) (tags : List Str) (T : Option Nat)
+    (hA1 : ParserNeedsOpener parse tags) (d : Str) (hd : NoOpener tags d) :
+    ∃ R, processLoop parse tags T (cleanup tags d) = ([], R) ∧ R <:+ d := by
+  refine ⟨(processLoop parse tags T (cleanup tags d)).2, ?_, ?_⟩
+  · have := processLoop_noOpener parse tags T hA1 (cleanup tags d)
+      (NoOpener_suffix tags d _ (cleanup_suffix tags d) hd)
+    rw [← this]
+  · exact (processLoop_suffix parse tags T _).trans (cleanup_suffix tags d)
+
+/-- one-shot lemma for `StreamOk2` -/
+theorem processLoop_stream2 (parse : Str → ParseRes M) (tags : List Str) (T : Option Nat)
+    (hA1 : ParserNeedsOpener parse tags) (hA2 : TagsOk tags) (final : Str) :
+    ∀ (segs : List (Seg M)), StreamOk2 parse tags T segs final →
+      ∀ (x : Str), x <+: encode segs final →
+      ∃ R, processLoop parse tags T (cleanup tags x) =
+        ((segs.take (countDone segs x.length)).map (·.msg), R) ∧
+        Inv2 tags final R (x.drop (off segs x.length)) (segs.drop (countDone segs x.length)) := by
+  intro segs
+  induction segs with
+  | nil =>
+    intro hok x hx
+    simp only [encode] at hx
+    simp only [countDone, off, List.take_nil, List.map_nil, List.drop_zero, List.drop_nil]
+    obtain ⟨R, hR, hsuf⟩ := processLoop_junk parse tags T hA1 x
+      (NoOpener_of_prefix tags x final hx hok.final)
+    exact ⟨R, hR, Or.inr ⟨hsuf, hx⟩⟩
+  | cons sg rest ih =>
+    intro hok x hx
+    obtain ⟨hadm, hgap, hfit⟩ := hok.seg sg (by simp)
+    have hokr := StreamOk2_tail parse tags T sg rest final hok
+    have hblen := Admissible_length parse tags _ _ hadm
+    simp only [encode] at hx
+    have hgb : sg.gap ++ sg.body <+: sg.gap ++ sg.body ++ encode rest final :=
+      List.prefix_append _ _
+    by_cases h : sg.gap.length + sg.body.length ≤ x.length
+    · have h1 : sg.gap ++ sg.body <+: x :=
+        List.prefix_of_prefix_length_le hgb hx (by simpa using h)
+      obtain ⟨x', hx'⟩ := h1
+      subst hx'
+      have hx'p : x' <+: encode rest final := (List.prefix_append_right_inj _).1 hx
+      have hcl : cleanup tags (sg.gap ++ sg.body ++ x') = sg.body ++ x' := by
+        rw [List.append_assoc]
+        apply cleanup_gap_body tags hA2 sg.gap sg.body x' _ hgap hadm.starts (List.prefix_refl _)
+        intro hnil
+        have := congrArg List.length hnil
+        simp only [List.length_append, List.length_nil] at this
+        omega
+      obtain ⟨R, hR, hinv⟩ := ih hokr x' hx'p
+      refine ⟨R, ?_, ?_⟩
+      · rw [hcl, processLoop_found parse tags T _ sg.msg x'
+          (findMessage_complete parse tags sg.body sg.msg hadm x'), hR]
+        have hl : (sg.gap ++ sg.body ++ x').length - (sg.gap.length + sg.body.length) = x'.length := by
+          simp only [List.length_append]; omega
+        simp only [countDone, h, if_true, hl]
+        have h3 : 1 + countDone rest x'.length = countDone rest x'.length + 1 := by omega
+        rw [h3, List.take_succ_cons, List.map_cons]
+      · have hl : (sg.gap ++ sg.body ++ x').length - (sg.gap.length + sg.body.length) = x'.length := by
+          simp only [List.length_append]; omega
+        simp only [countDone, off, h, if_true, hl]
+        have h3 : 1 + countDone rest x'.length = countDone rest x'.length + 1 := by omega
+        rw [h3, List.drop_succ_cons]
+        have e : (sg.gap ++ sg.body ++ x').drop (sg.gap.length + sg.body.length + off rest x'.length)
+            = x'.drop (off rest x'.length) := by
+          rw [← List.drop_drop]
+          congr 1
+          have : sg.gap.length + sg.body.length = (sg.gap ++ sg.body).length := by simp
+          rw [this, List.drop_left]
+        rw [e]
+        exact hinv
+    · have hlt : x.length < sg.gap.length + sg.body.length := by omega
+      have h1 : x <+: sg.gap ++ sg.body :=
+        List.prefix_of_prefix_length_le hx hgb (by simp; omega)
+      simp only [countDone, off, h, if_false, List.take_zero, List.map_nil, List.drop_zero]
+      rcases List.prefix_or_prefix_of_prefix h1 (List.prefix_append sg.gap sg.body) with h2 | h2
+      · -- still within the gap
+        obtain ⟨R, hR, hsuf⟩ := processLoop_junk parse tags T hA1 x
+          (NoOpener_of_prefix tags x sg.gap h2 hgap)
+        exact ⟨R, hR, Or.inr ⟨hsuf, h2⟩⟩
+      · obtain ⟨p, hp⟩ := h2
+        subst hp
+        have hpb : p <+: sg.body := (List.prefix_append_right_inj sg.gap).1 h1
+        have hplt : p.length < sg.body.length := by simp at hlt; omega
+        by_cases hpn : p = []
+        · subst hpn
+          obtain ⟨R, hR, hsuf⟩ := processLoop_junk parse tags T hA1 (sg.gap ++ [])
+            (by simpa using hgap)
+          exact ⟨R, hR, Or.inr ⟨hsuf, by simp [headGap]⟩⟩
+        · have hcl : cleanup tags (sg.gap ++ p) = p :=
+            cleanup_gap_body tags hA2 sg.gap sg.body [] p hgap hadm.starts (by simpa using hpb) hpn
+          refine ⟨cleanup tags (sg.gap ++ p), ?_, Or.inl rfl⟩
+          apply processLoop_keep
+          · rw [hcl]
+            exact findMessage_properPrefix parse sg.body _ hadm.minimal hpb hplt
+          · rw [hcl]
+            exact fits_mono T _ _ hfit (by omega)
+
+/-- one `feed` from a buffer satisfying the invariant -/
+theorem feed_stream2 (parse : Str → ParseRes M) (tags : List Str) (T : Option Nat)
+    (hA1 : ParserNeedsOpener parse tags) (hA2 : TagsOk tags) (final : Str)
+    (segs : List (Seg M)) (hok : StreamOk2 parse tags T segs final)
+    (B x q : Str) (hinv : Inv2 tags final B x segs) (hx : x ++ q <+: encode segs final) :
+    ∃ R, feed parse tags T B q =
+        ((segs.take (countDone segs (x ++ q).length)).map (·.msg), R) ∧
+        Inv2 tags final R ((x ++ q).drop (off segs (x ++ q).length))
+          (segs.drop (countDone segs (x ++ q).length)) := by
+  have hA := processLoop_stream2 parse tags T hA1 hA2 final segs hok (x ++ q) hx
+  rcases hinv with hB | ⟨hsuf, hxg⟩
+  · subst hB
+    unfold feed process
+    rw [cleanup_absorb tags hA2]
+    exact hA
+  · -- `x` is within the junk, `B` is a suffix of it
+    obtain ⟨u, hu⟩ := hsuf
+    have junk : NoOpener tags (x ++ q) →
+        countDone segs (x ++ q).length = 0 → off segs (x ++ q).length = 0 →
+        x ++ q <+: headGap segs final →
+        ∃ R, feed parse tags T B q =
+          ((segs.take (countDone segs (x ++ q).length)).map (·.msg), R) ∧
+          Inv2 tags final R ((x ++ q).drop (off segs (x ++ q).length))
+            (segs.drop (countDone segs (x ++ q).length)) := by
+      intro hno hc ho hpg
+      have hBq : B ++ q <:+ x ++ q := ⟨u, by rw [← hu]; simp⟩
+      obtain ⟨R, hR, hRs⟩ := processLoop_junk parse tags T hA1 (B ++ q)
+        (NoOpener_suffix tags _ _ hBq hno)
+      refine ⟨R, ?_, ?_⟩
+      · unfold feed process
+        rw [hR, hc]; simp
+      · rw [hc, ho]
+        exact Or.inr ⟨by simpa using hRs.trans hBq, by simpa using hpg⟩
+    cases segs with
+    | nil =>
+      simp only [encode] at hx
+      exact junk (NoOpener_of_prefix tags _ final hx hok.final) rfl rfl hx
+    | cons sg rest =>
+      obtain ⟨hadm, hgap, hfit⟩ := hok.seg sg (by simp)
+      have hblen := Admissible_length parse tags _ _ hadm
+      simp only [headGap] at hxg
+      simp only [encode] at hx
+      have hgp : sg.gap <+: sg.gap ++ sg.body ++ encode rest final := by
+        rw [List.append_assoc]; exact List.prefix_append _ _
+      by_cases hl : (x ++ q).length ≤ sg.gap.length
+      · have hpg : x ++ q <+: sg.gap := List.prefix_of_prefix_length_le hx hgp hl
+        have hn : ¬ (sg.gap.length + sg.body.length ≤ (x ++ q).length) := by omega
+        exact junk (NoOpener_of_prefix tags _ _ hpg hgap) (by simp only [countDone, hn, if_false])
+          (by simp only [off, hn, if_false]) hpg
+      · have hgx : sg.gap <+: x ++ q := List.prefix_of_prefix_length_le hgp hx (by omega)
+        obtain ⟨y, hy⟩ := hgx
+        obtain ⟨v, hv⟩ := hxg
+        have hq : q = v ++ y := by
+          have : x ++ q = x ++ (v ++ y) := by rw [← hy, ← hv, List.append_assoc]
+          exact List.append_cancel_left this
+        have hyne : y ≠ [] := by
+          intro h; subst h
+          have := congrArg List.length hy
+          simp only [List.length_append, List.length_nil] at this hl; omega
+        have hyp : y <+: sg.body ++ encode rest final := by
+          rw [← hy, List.append_assoc] at hx
+          exact (List.prefix_append_right_inj _).1 hx
+        have hBv : B ++ v <:+ sg.gap := ⟨u, by rw [← hv, ← hu]; simp⟩
+        have e1 : cleanup tags (B ++ q) = y := by
+          rw [hq, ← List.append_assoc]
+          exact cleanup_gap_body tags hA2 (B ++ v) sg.body _ y
+            (NoOpener_suffix tags _ _ hBv hgap) hadm.starts hyp hyne
+        have e2 : cleanup tags (x ++ q) = y := by
+          rw [← hy]
+          exact cleanup_gap_body tags hA2 sg.gap sg.body _ y hgap hadm.starts hyp hyne
+        unfold feed process
+        rw [e1, ← e2]
+        exact hA
+
+theorem session_stream2 (parse : Str → ParseRes M) (tags : List Str) (T : Option Nat)
+    (hA1 : ParserNeedsOpener parse tags) (hA2 : TagsOk tags) (final : Str) :
+    ∀ (pieces : List Str) (segs : List (Seg M)), StreamOk2 parse tags T segs final →
+      ∀ (B tail0 : Str), Inv2 tags final B tail0 segs →
+      tail0 ++ pieces.flatten <+: encode segs final →
       countDone segs tail0.length = 0 →
-      (session tryParse tags T (cleanup tags tail0) pieces).1.flatten =
+      (session parse tags T B pieces).1.flatten =
         (segs.take (countDone segs (tail0.length + pieces.flatten.length))).map (·.msg) := by
   intro pieces
   induction pieces with
   | nil =>
-    intro segs hok tail0 hpre h0
+    intro segs hok B tail0 hinv hpre h0
     simp [session, h0]
   | cons q ps ih =>
-    intro segs hok tail0 hpre h0
+    intro segs hok B tail0 hinv hpre h0
     simp only [List.flatten_cons] at hpre
     have hx : tail0 ++ q <+: encode segs final := by
       refine (List.prefix_append _ ps.flatten).trans ?_
       simpa [List.append_assoc] using hpre
-    have hfeed : feed tryParse tags T (cleanup tags tail0) q =
-        ((segs.take (countDone segs (tail0 ++ q).length)).map (·.msg),
-          cleanup tags ((tail0 ++ q).drop (off segs (tail0 ++ q).length))) := by
-      unfold feed process
-      rw [cleanup_absorb tags hA2]
-      exact processLoop_stream tryParse tags T hA1 hA2 final segs hok _ hx
+    obtain ⟨R, hfeed, hinv'⟩ :=
+      feed_stream2 parse tags T hA1 hA2 final segs hok B tail0 q hinv hx
     have hole := off_le segs (tail0 ++ q).length
     have hpre' : (tail0 ++ q).drop (off segs (tail0 ++ q).length) ++ ps.flatten <+:
         encode (segs.drop (countDone segs (tail0 ++ q).length)) final := by
@@ -853,7 +1072,7 @@ theorem session_stream (tryParse : Str → Option M) (tags : List Str) (T : Opti
       rw [List.length_drop]
       exact countDone_rem segs _
     have := ih (segs.drop (countDone segs (tail0 ++ q).length))
-      (StreamOk_drop tryParse tags T segs final _ hok) _ hpre' h0'
+      (StreamOk2_drop parse tags T segs final _ hok) R _ hinv' hpre' h0'
     simp only [session, List.flatten_cons]
     rw [hfeed]
     simp only
@@ -865,5 +1084,17 @@ theorem session_stream (tryParse : Str → Option M) (tags : List Str) (T : Opti
     rw [List.length_drop]
     simp only [List.length_append] at hole ⊢
     omega
+
+/-! ### C02: the session on a `StreamOk` stream (corollary of the long-gap version) -/
+
+theorem session_stream (parse : Str → ParseRes M) (tags : List Str) (T : Option Nat)
+    (hA1 : ParserNeedsOpener parse tags) (hA2 : TagsOk tags) (final : Str)
+    (pieces : List Str) (segs : List (Seg M)) (hok : StreamOk parse tags T segs final)
+    (tail0 : Str) (hpre : tail0 ++ pieces.flatten <+: encode segs final)
+    (h0 : countDone segs tail0.length = 0) :
+    (session parse tags T (cleanup tags tail0) pieces).1.flatten =
+      (segs.take (countDone segs (tail0.length + pieces.flatten.length))).map (·.msg) :=
+  session_stream2 parse tags T hA1 hA2 final pieces segs hok.toStreamOk2
+    (cleanup tags tail0) tail0 (Or.inl rfl) hpre h0
 
 end Indi.Buf
